@@ -133,7 +133,7 @@ func runC03(r *rep.Report, thorough bool) error {
 			r.Fail(rep.Failure{Signature: "c03:invalid-alias-name:zero-length-array", What: "a type alias is declared with a type expression as its name (zero-length fixed array)", Input: in})
 		}
 		if closed, _ := reply["closedOnce"].(bool); !closed {
-			r.Fail(rep.Failure{Signature: "c03:not-closed-or-duplicate-name" + c03Shape(a, gorun.Line{}), What: "the generated declarations mention an undeclared name or declare a name twice (evaluated on the model, which agrees with the real declarations)", Input: in})
+			r.Fail(rep.Failure{Signature: "c03:not-closed-or-duplicate-name" + c03Shape(a, gorun.Line{}), What: "the generated declarations mention an undeclared name or declare a name twice (evaluated on the model, which agrees with the real declarations): " + strings.Join(strsOf(reply["closedReport"]), "; "), Input: in})
 		}
 		if supportedEnv(a.Env) {
 			if u := runTarget("gounions", a, l.Mod.Root); u.Out.Class == "ok" {
